@@ -57,6 +57,7 @@ class Timer(object):
             return True
 
         if self.timer.elapsed() >= self.adjusted_duration:
+            self.timer = None
             _process_thread_worker.add(self.func)
             return True
 
